@@ -53,6 +53,7 @@ var specs = []Spec{
 	{"x/tradeshield/keeper", "msgServer.UpdatePerpetualOrder", "updatePerpGuards", false, true, ""},
 	{"x/oracle/keeper", "msgServer.FeedPrice", "feedPriceGuards", false, true, ""},
 	{"x/amm/keeper", "Keeper.ExitPool", "exitPoolGuards", false, true, ""},
+	{"x/accountedpool/keeper", "Keeper.PerpetualUpdates", "accountedAmount", false, true, "accountedPool.TotalTokens[i] ="},
 	{"x/perpetual/keeper", "Keeper.CheckAndLiquidateUnhealthyPosition", "perpLiquidateGuards", false, true, "if mtp.MtpHealth.LTE(safetyFactor)"},
 	{"x/perpetual/keeper", "Keeper.ProcessOpen", "perpOpenHealthGuards", false, true, "stopLossPrice :="},
 	{"x/perpetual/keeper", "Keeper.OpenConsolidate", "perpConsolidateHealthGuards", false, true, "stopLossPrice :="},
@@ -76,6 +77,17 @@ var windowFrom = map[string]string{
 // whether the condition holds (true = the branch with the effects is entered)
 var guardIf = map[string]bool{
 	"perpLiquidateGuards": true,
+}
+
+// loopBody (prefix mode): the statements translated are those of the BODY of the function's first top-level `for .. range` loop (one
+// iteration, for an arbitrary element: the range variables are opaque); windowResult: the definition returns this local variable (an
+// integer) instead of `true`
+var loopBody = map[string]bool{
+	"accountedAmount": true,
+}
+
+var windowResult = map[string]string{
+	"accountedAmount": "accountedPoolAmt",
 }
 
 // externs: callees that are loops; their hand-written Lean definitions are tied to the code by the differential harness only
